@@ -186,7 +186,7 @@ def handle (line : String) : String :=
   let toks := (line.trimAscii.toString.splitOn " ").filter (· != "")
   match toks with
   | "lk" :: rule :: size :: keys =>
-    cmdLk rule (size.toNat?.getD 0) (keys.map fun k => strOfBytes (bytesOfHex k))
+    cmdLk rule (size.toNat?.getD 0) (keys.map fun k => strOfBytes (bytesOfHex (k.drop 1).toString))
   | ["ser", cls, entry, opts, data] => cmdSer cls entry opts data
   | "step" :: cls :: opts :: ops => cmdStep cls opts ops
   | ["trace", cls, opts, data] => cmdTrace cls opts data
